@@ -20,7 +20,6 @@ HEADER = ("From Coq Require Import List ZArith NArith PArith.\nImport ListNotati
           "Notation P x := (x%positive) (only parsing).\n")
 
 KNOWN_FOREIGN = "C05:foreign-atom:append_bond:no-coordinate-row"
-KNOWN_RS_IDX = "C05:remove_substituent:a1-by-index-resolved-after-deletion"
 
 MOL2_STARTS = ["dmf_mol2", "benzene_mol2", "dummy_mol2", "fxyl_mol2", "hadd_test_mol2",
                "box_backbone_mol2", "isornitrate_mol2", "dendrobine_mol2"]
@@ -568,20 +567,21 @@ def gen_op(drv, rng):
         if nb and rng.random() < 0.85:
             b = rng.choice(m.bonds)
             a1, a2 = (b.a1, b.a2) if rng.random() < 0.5 else (b.a2, b.a1)
-            # a1 is re-resolved by the code after the deletions: never by position (recorded finding)
             z = rng.random()
-            if z < 0.7:
+            if z < 0.55:
                 s1 = ["obj", drv.an[id(a1)]]
-            elif z < 0.85 and a1.label is not None and next(m.yield_atoms_by_label(a1.label)) is a1:
+            elif z < 0.75:
+                s1 = ["idx", m.atoms.index(a1)]        # positions shift during the deletions: a1 must be resolved first
+            elif z < 0.87 and a1.label is not None and next(m.yield_atoms_by_label(a1.label)) is a1:
                 s1 = ["label", a1.label]
             elif next(m.yield_atoms_by_element(a1.element)) is a1:
                 s1 = ["elem", int(a1.element)]
             else:
-                s1 = ["obj", drv.an[id(a1)]]
+                s1 = ["idx", m.atoms.index(a1) - n]
             z = rng.random()
             s2 = ["obj", drv.an[id(a2)]] if z < 0.6 else ["idx", m.atoms.index(a2)]
             return ["remove_substituent", s1, s2, rng.choice([None, "AP1"])]
-        return ["remove_substituent", pick_sel(drv, rng, allow_idx=False), pick_sel(drv, rng), None]
+        return ["remove_substituent", pick_sel(drv, rng), pick_sel(drv, rng), None]
     if k == "add_hs":
         if n == 0 or rng.random() < 0.2:
             return ["add_hs", None]
@@ -643,7 +643,7 @@ def resolve_letter(drv, rng, L):
     if L == "rs_rev":
         if nb:
             b = m.bonds[-1]
-            return ["remove_substituent", ["obj", drv.an[id(b.a2)]], ["idx", m.atoms.index(b.a1)], None]
+            return ["remove_substituent", ["idx", m.atoms.index(b.a2)], ["idx", m.atoms.index(b.a1)], None]
         return ["remove_substituent", ["obj", last], ["idx", 0], None]
     if L == "add_h0":
         return ["add_hs", [first]] if n else ["add_hs", None]
@@ -727,18 +727,6 @@ def confirm_known():
             out.append((KNOWN_FOREIGN, f"dmf.append_bond(Bond(dmf.atoms[0], {what})): {m.n_atoms} atoms, coords {m.coords.shape}, "
                         f"charges {m.atomic_charges.shape}", {"kind": "known", "which": "foreign"}))
             break
-    try:
-        m = ml.Molecule.load_mol2(str(ml.files.dmf_mol2))
-        n_at = m.atoms[2]
-        m.remove_substituent(2, 0)   # N(2)-C(0): the formyl group C0,O1,H3 goes; the attachment point belongs on N
-        ap = m.atoms[-1]
-        nb = [b % ap for b in m.bonds if ap in b]
-        if nb and nb[0] is not n_at:
-            out.append((KNOWN_RS_IDX, "dmf.remove_substituent(2, 0): the attachment point is bonded to "
-                        f"{nb[0].element.name} (position {m.atoms.index(nb[0])}) instead of the nitrogen that was atom 2",
-                        {"kind": "known", "which": "rs-idx"}))
-    except Exception:
-        pass                         # the witness no longer runs this way: nothing to report for this finding
     return out
 
 
@@ -790,7 +778,6 @@ def run(ctx, rep):
     rep.assumptions += ["objects handed to add_atom / append_bond(s) are newly constructed (adding the same Atom or Bond "
                         "object twice is outside the alphabet)",
                         "append_bond(s) only between atoms of the molecule (foreign atoms: recorded finding, replayed separately)",
-                        "remove_substituent: a1 is never designated by position (recorded finding, replayed separately)",
                         "add_implicit_hydrogens: only the structural effect is modelled; how many hydrogens and where is C16",
                         "Conformer / Substructure: structure edits are not defined on the views (add/del raise, now without side "
                         "effect); the oracle checks that a Substructure shows the parent's rows"]
